@@ -68,6 +68,80 @@ def unit_rankings(model, n):
     return recs
 
 
+def unit_rankings_unbounded(model):
+    """_calculate_rankings for ANY number of teams: both loops are cut by sidecar invariants
+    (pyvc/loops.py) and the real loop bodies are executed once on an arbitrary iteration"""
+    from ..loops import (CutLoops, LoopSpec, LOOP_REBINDS, SymList, SymSeq, make_loop_factory)
+    from .. import tactics
+    q = f"{model}._calculate_rankings"
+    box = {}
+
+    def inv1(k, st, lc):
+        ts, r = st["team_scores"], box["r"]
+        j = z3.Int("j!1")
+        if not isinstance(ts, SymList):
+            return z3.BoolVal(False)
+        return z3.And(ts.length == k, z3.ForAll([j], z3.Implies(z3.And(j >= 0, j < k),
+                      z3.And(z3.Select(ts.arr, j) == z3.Select(r.arr, j), z3.Select(ts.kinds, j) == z3.Select(r.kinds, j)))))
+
+    def inv2(k, st, lc):
+        s, d, ts = st["s"], st["rank_output"], lc.iterable.seq
+        sv = SymNum.lift(s).t
+        j = z3.Int("j!2")
+        a = lambda x: z3.Select(d.arr, x)
+        ai = lambda x: z3.ToInt(a(x))
+        # rank_output[j] is the first index of the block of equal values that contains j
+        body = z3.And(a(j) >= 0, a(j) <= z3.ToReal(j), z3.IsInt(a(j)), z3.Select(ts.arr, ai(j)) == z3.Select(ts.arr, j),
+                      z3.Or(a(j) == 0, z3.Select(ts.arr, ai(j) - 1) < z3.Select(ts.arr, ai(j))))
+        return z3.And(d.size == k, z3.Implies(k > 0, sv == a(k - 1)), z3.Implies(k == 0, sv == 0),
+                      z3.ForAll([j], z3.Implies(z3.And(j >= 0, j < k), body)))
+    specs = {(q, 1): LoopSpec(["team_scores"], inv1), (q, 2): LoopSpec(["s", "rank_output"], inv2)}
+    tr = CutLoops(specs)
+    S = extract.Scratch(model, transforms={extract.MODEL_FILES[model]: [tr]})
+    if sorted(tr.cut) != sorted(specs):
+        return [driver.rec(f"C03/{model}/_calculate_rankings/loops-found", "open", "ast", 0, fn=q, note=f"cut {tr.cut}")]
+    S.ns.update(LOOP_REBINDS)
+    S.ns["__pyvc_loop__"] = make_loop_factory(specs)
+    ctx = Ctx("U", feas_timeout_ms=2000)
+    done = {"return": 0}
+
+    def run(ctx):
+        n = z3.Int("n")
+        ctx.assume(n >= 1)
+        r = SymList("ranks", length=n)
+        box["r"] = r
+        i, j = z3.Ints("i j")
+        ctx.assume(z3.ForAll([i], z3.And(z3.Select(r.kinds, i) >= 0, z3.Select(r.kinds, i) <= 2)))
+        # precondition from the call site: rate passes sorted(ranks)
+        ctx.assume(z3.ForAll([i, j], z3.Implies(z3.And(0 <= i, i <= j, j < n), z3.Select(r.arr, i) <= z3.Select(r.arr, j))))
+        m = S.cls()
+        out = call(m._calculate_rankings, SymSeq(n), r)
+        meta = {"fn": q, "unbounded": True, "replay": {"kind": "c03_rankings", "model": model, "n": 4, "ranks": [{"v": [k, 1], "k": "int"} for k in (1, 1, 2, 3)]}}
+        if out[0] != "return" or not isinstance(out[1], SymList):
+            ctx.oblige(f"C03/{model}/_calculate_rankings/unbounded/returns-a-list", False, meta=dict(meta, note=repr(out[1])[:100]))
+            return
+        done["return"] += 1
+        o = out[1]
+        sel = z3.Select
+        g = z3.And(o.length == n, z3.ForAll([i, j], z3.Implies(z3.And(0 <= i, i < n, 0 <= j, j < n),
+                   z3.And((sel(o.arr, i) == sel(o.arr, j)) == (sel(r.arr, i) == sel(r.arr, j)),
+                          (sel(o.arr, i) < sel(o.arr, j)) == (sel(r.arr, i) < sel(r.arr, j))))))
+        ctx.oblige(f"C03/{model}/_calculate_rankings/unbounded/dense-iff", g, meta=meta)
+        wrong = z3.ForAll([i], z3.Implies(z3.And(0 <= i, i < n), sel(o.arr, i) == z3.ToReal(i)))
+        ctx.oblige(f"C03/{model}/_calculate_rankings/unbounded/canary-positions", wrong, kind="canary", meta={"fn": q})
+    explore(ctx, run)
+    recs = []
+    for r_ in settle(ctx.all_obls, mode="U", unbounded=True, timeout_ms=30000, canary_timeout_ms=2000):
+        if r_["kind"] == "canary" and r_["verdict"] == "open":
+            r_ = dict(r_, verdict="refuted", note="not provable")
+        if not r_["name"].startswith("C03/"):
+            r_ = dict(r_, name=f"C03/{model}/_calculate_rankings/unbounded/" + r_["name"].split("/", 1)[-1] + "[" + r_["name"].split("/")[0].split("#")[-1] + "]")
+        recs.append(r_)
+    if not done["return"]:
+        recs.append(driver.rec(f"C03/{model}/_calculate_rankings/unbounded/exit-path-reached", "open", "explorer", 0, kind="vacuity"))
+    return _merge_canaries(recs)
+
+
 def unit_order(model, sizes, form, limit):
     """form: relabel | scores | default"""
     S = extract.Scratch(model)
@@ -150,6 +224,7 @@ def units(tier):
     us = [("unit_neg", ())]
     nmax = 5 if tier == "quick" else 7
     for m in extract.MODELS:
+        us.append(("unit_rankings_unbounded", (m,)))
         for n in range(2, nmax + 1):
             us.append(("unit_rankings", (m, n)))
         shapes = [(1, 1), (2, 1), (1, 1, 1)] if tier == "quick" else [(1, 1), (2, 1), (1, 1, 1), (1, 2, 1), (1, 1, 1, 1), (1, 1, 1, 1, 1)]
